@@ -49,6 +49,7 @@ func init() {
 				w = taggerChainWF(c) // a linear stream through two tagging components in a row
 			default:
 				w = Generate(c.Tape, tierProfile(profC12, c.Tier))
+				AddTagArgs(c.Tape, w)
 				if c.Tape.Choose(simrt.StGen, 5, 0) == 1 {
 					pickRunTo(c.Tape, w)
 				}
